@@ -9,14 +9,18 @@ PROPS = ['Props/C03.lean']
 
 
 def keyfn(case, res, m):
-    # finding key = monitor rule + scenario class (complete or partial consumption); the replay
-    # written per key is the smallest failing case of that class
+    # finding key = monitor rule + scenario class; the replay written per key is the smallest
+    # failing case of that class.
+    if m['rule'] == 'reiterate':
+        # class = the operator whose state is built once per Stream and can therefore survive an
+        # iteration (F23: accumulate); a re-iteration failure of a program without it is a different finding
+        return 'reiterate:' + ('accumulate' if any(op[0] == 'accumulate' for op in case['ops']) else 'other')
     return f"{m['rule']}:{'partial' if m['detail'].startswith('take') else 'full'}"
 
 
 def run(chk):
     chk.audit(PROPS)
-    n = 2500 if chk.tier == 'quick' else 120000
+    n = 6000 if chk.tier == 'quick' else 150000
     nb = n // 5
     counter = {'i': 0}
 
